@@ -52,6 +52,7 @@ type G struct {
 	pointGap int
 	what     string // what it is blocked on (for reports)
 	idle     bool
+	tags     map[string]string
 	// per-goroutine last-load table for the ABA detector
 	seen map[uintptr]seenRec
 }
@@ -429,12 +430,45 @@ func (s *Sim) spawn(p *Proc, name string, f func(), timer bool) *G {
 	return g
 }
 
+func (g *G) panicTags() map[string]string {
+	t := map[string]string{"proc": g.proc.Name}
+	for k, v := range g.tags {
+		t[k] = v
+	}
+	return t
+}
+
+// Tag attaches a discriminator tag to goroutine g (may be called by another goroutine holding the token).
+func (g *G) Tag(k, v string) {
+	if g == nil {
+		return
+	}
+	if g.tags == nil {
+		g.tags = map[string]string{}
+	}
+	g.tags[k] = v
+}
+
+// SetTag attaches a discriminator tag to the calling goroutine; a panic in it carries the tags.
+func SetTag(k, v string) {
+	if g := Cur(); g != nil {
+		if g.tags == nil {
+			g.tags = map[string]string{}
+		}
+		if v == "" {
+			delete(g.tags, k)
+		} else {
+			g.tags[k] = v
+		}
+	}
+}
+
 func (s *Sim) run(g *G, f func()) {
 	debug.SetPanicOnFault(true)
 	defer func() {
 		if r := recover(); r != nil {
 			if !s.tornDown {
-				s.fail("panic", fmt.Sprintf("%v", r), string(debug.Stack()), map[string]string{"proc": g.proc.Name})
+				s.fail("panic", fmt.Sprintf("%v", r), string(debug.Stack()), g.panicTags())
 			}
 		}
 		s.mu.Lock()
@@ -469,7 +503,7 @@ func (s *Sim) run2(g *G, f func()) {
 	defer func() {
 		if r := recover(); r != nil {
 			if !s.tornDown {
-				s.fail("panic", fmt.Sprintf("%v", r), string(debug.Stack()), map[string]string{"proc": g.proc.Name})
+				s.fail("panic", fmt.Sprintf("%v", r), string(debug.Stack()), g.panicTags())
 			}
 		}
 		s.mu.Lock()
@@ -565,7 +599,7 @@ func Point(id int) {
 		return
 	}
 	g := s.cur
-	if g == nil || s.rootMode {
+	if g == nil || s.rootMode || pointsOff {
 		return
 	}
 	g.pointGap--
@@ -978,4 +1012,53 @@ func RunSeed() uint64 {
 		return 0
 	}
 	return S.cfg.Seed
+}
+
+var pointsOff bool
+
+// PointsOn enables/disables statement-level decision points globally (the
+// harness switches them off while it builds the system under test).
+func PointsOn(on bool) { pointsOff = !on }
+
+// What reports what the goroutine is really blocked on ("" when runnable/parked).
+func (g *G) What() string { return g.what }
+
+// Done reports whether the goroutine has exited.
+func (g *G) Done() bool { return g.state == gDone }
+
+// ReallyBlocked reports whether g is blocked in a real channel/kernel wait (not merely parked).
+func (g *G) ReallyBlocked() bool { return g.state == gRunning && g.what != "" && S != nil && S.cur != g }
+
+// Steps returns the number of scheduling steps so far.
+func Steps() int64 {
+	if S == nil {
+		return 0
+	}
+	return S.steps
+}
+
+// Procs returns the simulated processes.
+func (s *Sim) Procs() []*Proc { return s.procs }
+
+// FnTable is generated by the instrumenter (function names of the package under test).
+var FnTable []string
+
+// Fn records a function entry in the trace of a traced replay (no effect otherwise).
+func Fn(id int) {
+	s := S
+	if s == nil || !s.cfg.Trace {
+		return
+	}
+	name := "?"
+	if id >= 0 && id < len(FnTable) {
+		name = FnTable[id]
+	}
+	g := s.cur
+	gn := "?"
+	if g != nil {
+		gn = g.name
+	}
+	s.mu.Lock()
+	s.trace = append(s.trace, fmt.Sprintf("%6d %10s   fn %s [%s]", s.steps, s.Now(), name, gn))
+	s.mu.Unlock()
 }
